@@ -170,7 +170,10 @@ func buildCallSiteIndex(p *Prog) {
 		})
 	}
 	curSites = ix
+	curProg = p
 }
+
+var curProg *Prog
 
 // inheritedFacts: for an unexported helper that is only called statically, the facts
 // that hold at every one of its call sites also hold throughout the helper (so that
